@@ -74,7 +74,14 @@ class Ctx:
         return self.tier == "thorough"
 
     def n(self, quick, thorough):
-        return thorough if self.thorough else quick
+        """number of generated cases: thorough size in the thorough tier; in the quick tier three times the quick size
+        (capped by the thorough size) when an anchored source file differs from the committed fingerprint baseline -
+        a changed tree is examined harder, the unchanged tree costs nothing more"""
+        if self.thorough:
+            return thorough
+        if getattr(self, "escalated", False):
+            return min(thorough, 3 * quick)
+        return quick
 
     # -- bookkeeping
     def case(self, key, nontrivial=True, branch=None):
@@ -127,6 +134,18 @@ def run_extract(ctx):
             ctx.generated_info = json.load(fh)
     except Exception as e:  # pragma: no cover
         ctx.notes.append("generated.json unreadable: %r" % (e,))
+    # source fingerprints: a difference from the committed baseline raises no alarm, it enlarges the correspondence run
+    try:
+        with open(os.path.join(VERIF, "tools", "fingerprints_baseline.json")) as fh:
+            base = json.load(fh)
+        now = ctx.generated_info.get("fingerprints", {})
+        changed = sorted(k for k in set(base) | set(now) if base.get(k) != now.get(k))
+        ctx.escalated = bool(changed)
+        ctx.extra["source_files_changed_vs_baseline"] = changed
+        if changed:
+            ctx.notes.append("source differs from the fingerprint baseline in %s: correspondence run enlarged" % ", ".join(changed[:6]))
+    except OSError:
+        ctx.escalated = False
     return True
 
 
